@@ -23,6 +23,8 @@ MANIFEST = {
     "technique": "Lean 4 proof (loop invariants by induction over fuel, list lemmas) over a model with capacity-checked buffers; differential correspondence with the extracted C function under ASan/UBSan; independent Python oracle of TS 44.018 10.5.2.21",
     "design_ref": "DESIGN.md section 5 C20, section 7 F7",
 }
+MANIFEST["text"] += chain.MANIFEST_TEXT
+MANIFEST["note"] += chain.MANIFEST_NOTE
 
 SYSINFO_C = "src/host/layer23/src/common/sysinfo.c"
 # hash of the function text the model was written against (tree with the F7 fix)
